@@ -2,7 +2,9 @@
 
 params:
   flavour   "manual" (ManualExecutor delegate, mirrors spec/Retry.tla) | "pool" | "sync"
-  policy    {"kind": "exc", "max_attempts", "sleep", "exponent", "max_sleep"}   (ticks for sleep / max_sleep)
+  policy    {"kind": "exc", "max_attempts", "sleep", "exponent", "max_sleep"}   (ticks for sleep / max_sleep; they
+            may be fractions of a tick and the exponent any float: the recording policy compares every answer of
+            sleep_time() with the exactly computed min(sleep * exponent ** (attempt - 1), max_sleep))
             {"kind": "custom", "decisions": [[retry?(0/1/"raise"), sleep ticks | "raise"], ...]} last repeats
   jobs      [{script: ["V"|"E"|"F", ...], S, K, K2 (cancel times or None), C (delegate cancellable),
               percall: optional per-call policy dict, cancel_in_policy: attempt k at which sleep_time cancels}]
@@ -31,7 +33,11 @@ def make_policy(spec, subs_of, hooks):
                 if h:
                     h()
                 r = ExceptionRetryPolicy.sleep_time(self, attempt, future)
-                E.emit("SleepTime", f=sub_of(future), k=attempt, a=E.to_ticks(r))
+                from fractions import Fraction
+                want = min(Fraction(spec["sleep"]) * Fraction(spec.get("exponent", 2)) ** (attempt - 1),
+                           Fraction(spec.get("max_sleep", 120000)))
+                ok = abs(r * 1000.0 - float(want)) <= 1e-6 * max(1.0, float(want))
+                E.emit("SleepTime", f=sub_of(future), k=attempt, a=E.to_ticks(r), b=1 if ok else 0)
                 return r
 
         return RecExc(max_attempts=spec["max_attempts"], sleep=spec["sleep"] / 1000.0,
@@ -82,7 +88,11 @@ def build(p):
         else:
             base = H.TapExecutor(Executors.sync(name="s"), "tap")
         exact = 0 if (flavour == "sync" and len(jobs) > 1) else 1
-        if pol["kind"] == "exc" and not any(jb.get("percall") for jb in jobs):
+        whole = all(float(pol.get(k, 0)).is_integer() for k in ("sleep", "exponent", "max_sleep")) if pol["kind"] == "exc" else True
+        if pol["kind"] == "exc" and not whole and not any(jb.get("percall") for jb in jobs):
+            # fractional parameters: the formula is checked by the recording policy (exact rationals), not in ticks
+            E.emit("Cfg", f=exact, s="excf", a=pol["max_attempts"])
+        elif pol["kind"] == "exc" and not any(jb.get("percall") for jb in jobs):
             E.emit("Cfg", f=exact, s="exc", a=pol["max_attempts"], b=pol["sleep"], c=pol.get("exponent", 2),
                    k=pol.get("max_sleep", 120000))
         else:
